@@ -1133,18 +1133,23 @@ fn judge_skew<V: SimVdaf<VK>, A: Adapter<V>, const VK: usize>(plan: &PlanA, pass
         ctx.counters.inc("c18.mismatch_rejected");
         return Ok(());
     }
-    for k in &plan.confirm {
-        let mut scratch = Counters::default();
-        let p2 = rerun(&k.0, &mut scratch)?;
-        let f2 = flag(&p2);
-        cands.retain(|c| f2.contains(c));
-        if cands.is_empty() {
-            break;
+    // Confirmation under independent keys guards against soundness coincidences, which only the 32-bit field of
+    // Prio2 makes likely; C18 runs Prio3 and Poplar1 (fields of >= 64 bits, coincidence < 2^-50). Re-running under
+    // other keys would, on the contrary, hide a binding that is lost through state keyed by the verification key.
+    if plan.inst.class == "prio2" {
+        for k in &plan.confirm {
+            let mut scratch = Counters::default();
+            let p2 = rerun(&k.0, &mut scratch)?;
+            let f2 = flag(&p2);
+            cands.retain(|c| f2.contains(c));
+            if cands.is_empty() {
+                break;
+            }
         }
-    }
-    if cands.is_empty() {
-        ctx.probe("soundness_coincidence_not_confirmed");
-        return Ok(());
+        if cands.is_empty() {
+            ctx.probe("soundness_coincidence_not_confirmed");
+            return Ok(());
+        }
     }
     let what = skews.iter().filter(|s| !inert(s)).map(|s| s.what.as_str()).collect::<Vec<_>>().join("+");
     ctx.fail(Violation::new(
